@@ -19,6 +19,8 @@ def search(ctx):
 
 def run(ctx):
     ctx.prove()
+    from checks import gpbft_common as g
+    g.power_gate(ctx)
     worlds = "1500" if ctx.tier == "thorough" else "120"
     ctx.correspond("h_validate", "Validate", nontrivial=NONTRIVIAL,
                    env={"VERIF_VALIDATE_MODE": "c05", "VERIF_VALIDATE_WORLDS": worlds})
